@@ -1,3 +1,22 @@
-from simlab.profiles.chainprof import make_module_api
+"""C05: truncating compression on the chain world (runs 0,1 mod 3) and on the tree world (2 mod 3)."""
+import random
+from simlab import session
+from simlab.profiles.chainprof import ChainProfile
+from simlab.profiles.treeprof import TreeProfile
+
 ID = "C05"
-generate_and_run, replay = make_module_api("C05")
+_P = {"chain": ChainProfile("C05"), "tree": TreeProfile("C05")}
+
+
+def generate_and_run(seed, index, tier):
+    fam = "tree" if index % 3 == 2 else "chain"
+    prof = _P[fam]
+    rnd = random.Random(seed)
+    header = prof.gen_header(rnd, tier)
+    header["tier"] = tier
+    header["family"] = fam
+    return session._run(prof, header, None, rnd, prof.nsteps(rnd, tier), tier)
+
+
+def replay(plan):
+    return session.replay(_P[plan["header"].get("family", "chain")], plan)
